@@ -606,7 +606,11 @@ impl Interface {
 
         #[cfg(feature = "proto-ipv6-slaac")]
         if self.inner.slaac_enabled {
-            res = res.min(self.inner.slaac.poll_at(timestamp));
+            // `Option::min` orders `None` before `Some(_)`, i.e. "no deadline" would win.
+            res = match (res, self.inner.slaac.poll_at(timestamp)) {
+                (Some(a), Some(b)) => Some(a.min(b)),
+                (a, b) => a.or(b),
+            };
         }
 
         res
